@@ -436,7 +436,8 @@ PosConsistent == (sub.st = "live" /\ Positioned /\ Seen # <<>>) => sub.pos >= Se
 
 \* witness search: "a delivery that advanced the position during a valid position check is never delivered again
 \* afterwards" (the schedule on which a check that writes back a stale position would re-deliver it)
-W_RedeliveryAfterCheck == ~(step.act = "Deliver" /\ chk.st = "idle" /\ step.id \in chk.adv /\ sub.st = "live" /\ pend = 0)
+W_RedeliveryAfterCheck == ~(step.act = "Deliver" /\ chk.st = "idle" /\ step.id \in chk.adv /\ sub.st = "live" /\ pend = 0
+                            /\ ~cfg.filt /\ ~step.foreign /\ ~step.lagged)      \* the re-delivery must be observable if accepted
 
 KindsPos == {"pos"}
 ServersClient == {FALSE}
